@@ -1008,7 +1008,9 @@ def run(chk):
                 "sync/async/raising resolvers, also without a logger sink and on Guards constructed with another "
                 "policy (roles policy installed by set_policy / update_policy / hot reload); overlapping evaluations on "
                 "one Guard (threads, one loop, evaluate_sync inside a running loop) with the resolver suspended at a "
-                "gate. non-trivial = some given role has at least one parent; distinct = "
+                "gate; histories on one Guard (resolvers editing their argument, falsy resolver objects, Subjects reused, "
+                "graph and caller's list edited between evaluations, payload objects read afterwards). "
+                "non-trivial = some given role has at least one parent; distinct = "
                 "distinct (graph, roles[, resolver flavour / Guard configuration / schedule])")
     chk.assumptions = ["role names are strings (what the property quantifies over)",
                        "Python str ordering on code points = byte order of the UTF-8 encoding (model sorts bytes)"]
